@@ -106,36 +106,44 @@ def run(m, rep, tier):
             n2.ok(f.name, '%d link store(s), tail maintained' % len(ls), floc(m, f))
 
     n6 = rep.rule('N6', 'the tail pointer is only ever set to the head link, another list\'s tail, or a node known to exist', floor=5)
+    from ..facts import phi_leaves
     for f in fns:
         pv = Prover(f)
-        for s in tail_stores(f):
-            v = strip_bitcasts(f, s.o[0])
+
+        def judge(s, v, f=f, pv=pv):
             a = resolve_addr(f, v)
             vi = f.get(v) if isinstance(v, str) else None
-            site = '%s:t:=%s' % (f.name, f.vname(v) if isinstance(v, str) else 'expr')
-            why = None
             if a.steps in (('h',),) or (a.steps == () and a.coff == 0 and isinstance(a.root, str) and (a.root.startswith('$') or (f.get(a.root) is not None and f.get(a.root).op == 'alloca'))
                                          and vi is not None and vi.op in ('getelementptr', 'bitcast')):
-                why = 'the list\'s own head link'
-            elif vi is not None and vi.op == 'load' and resolve_addr(f, vi.o[0]).fsteps[-1:] == ((SL, 't'),):
-                why = 'a tail pointer (never NULL by this very rule)'
-            elif pv.prove_at(('ne', v, 'null'), s):
-                why = 'proven non-NULL'
-            elif vi is not None and vi.op == 'load' and [x[1] for x in resolve_addr(f, vi.o[0]).fsteps] == ['h', 'n'] and _count_positive(f, pv, vi, s):
-                why = 'the first node of a list whose count is known to be non-zero (count > 0 <=> a first node exists, N5)'
-            else:
-                # dereferenced on every path before
-                for i in f.all_insts():
-                    ptr = i.o[0] if i.op == 'load' else (i.o[1] if i.op == 'store' else None)
-                    if ptr is not None and resolve_addr(f, ptr).root == v and resolve_addr(f, ptr).steps and i is not s:
-                        if f.dominates(i, s):
-                            why = 'already dereferenced at %s' % i.loc()
-                            break
-                        if (i.block is s.block and i.pos > s.pos) or (i.block is not s.block and f.postdominates_block(i.block, s.block)):
-                            why = 'dereferenced unconditionally right after, at %s' % i.loc()
-                            break
-                if why is None and isinstance(v, str) and v.startswith('$'):
-                    why = 'a node handed in by the caller'
+                return 'the list\'s own head link'
+            if vi is not None and vi.op == 'load' and resolve_addr(f, vi.o[0]).fsteps[-1:] == ((SL, 't'),):
+                return 'a tail pointer (never NULL by this very rule)'
+            if pv.prove_at(('ne', v, 'null'), s):
+                return 'proven non-NULL'
+            if vi is not None and vi.op == 'load' and [x[1] for x in resolve_addr(f, vi.o[0]).fsteps] == ['h', 'n'] and _count_positive(f, pv, vi, s):
+                return 'the first node of a list whose count is known to be non-zero (count > 0 <=> a first node exists, N5)'
+            # dereferenced on every path before
+            for i in f.all_insts():
+                ptr = i.o[0] if i.op == 'load' else (i.o[1] if i.op == 'store' else None)
+                if ptr is not None and resolve_addr(f, ptr).root == v and resolve_addr(f, ptr).steps and i is not s:
+                    if f.dominates(i, s):
+                        return 'already dereferenced at %s' % i.loc()
+                    if (i.block is s.block and i.pos > s.pos) or (i.block is not s.block and f.postdominates_block(i.block, s.block)):
+                        return 'dereferenced unconditionally right after, at %s' % i.loc()
+            if isinstance(v, str) and v.startswith('$'):
+                return 'a node handed in by the caller'
+            return None
+
+        for s in tail_stores(f):
+            v = strip_bitcasts(f, s.o[0])
+            vi = f.get(v) if isinstance(v, str) else None
+            site = '%s:t:=%s' % (f.name, f.vname(v) if isinstance(v, str) else 'expr')
+            why = judge(s, v)
+            if why is None and vi is not None and vi.op == 'phi':
+                # a tail computed ahead of time (`empty ? &own head : the other tail`): each alternative on its own
+                whys = [judge(s, leaf) for leaf, lb, lf in phi_leaves(f, pv.fc, v)]
+                if whys and all(w is not None for w in whys):
+                    why = 'each alternative: ' + '; '.join(sorted(set(whys)))
             if why:
                 n6.ok(site, why, s.loc())
             else:
@@ -147,26 +155,44 @@ def run(m, rep, tier):
     if f is None:
         n3.undecided('cstl_slist_swap', 'not in the model')
     else:
+        # judged on the function as written: the generic exchange stays a call, whatever its body does for small sizes
+        _pf = m.focus('slist').fn('cstl_slist_swap')      # private fix-up helpers inlined; header functions (cstl_swap) stay calls
+        if _pf is not None and not _pf.decl:
+            f = _pf
         pv = Prover(f)
-        copies = [c for c in f.all_insts() if c.op == 'call' and (c.callee or '').startswith(('llvm.memcpy', 'llvm.memmove'))]
+        copies = listrules.exchange_events(f)
         for k in (0, 1):
             root = '$%d' % k
             site = 'cstl_slist_swap(%s)' % (f.args[k].get('name') or root)
             ok = False
             counts = listrules.current_values(f, root, ('count',), copies)
+            # the other list's count read before the exchange is this list's count after it (N7: every member is exchanged)
+            other = '$%d' % (1 - k)
+            for i2 in f.all_insts():
+                if i2.op == 'load' and copies and all(f.dominates(i2, c) for c in copies):
+                    a2 = resolve_addr(f, i2.o[0])
+                    if strip_bitcasts(f, a2.root) == other and tuple(a2.steps) == ('count',):
+                        counts.add(i2.ref)
             for s in tail_stores(f):
                 a = resolve_addr(f, s.o[1])
                 if a.root != root:
                     continue
-                v = resolve_addr(f, s.o[0])
-                if v.root != root or v.steps not in (('h',), ()):
-                    continue
-                if v.steps == () and v.coff != 0:
-                    continue
-                for (op, x, y) in pv.facts_at(s):
-                    xi = f.get(x)
-                    if op == 'eq' and const_int(y) == 0 and x in counts:
-                        ok = True
+                alts = []
+                sv = strip_bitcasts(f, s.o[0]) if isinstance(s.o[0], str) else s.o[0]
+                svi = f.get(sv) if isinstance(sv, str) else None
+                if svi is not None and svi.op == 'phi':
+                    alts = [(leaf, lf or frozenset()) for leaf, lb, lf in phi_leaves(f, pv.fc, sv)]
+                else:
+                    alts = [(s.o[0], pv.facts_at(s))]
+                for val, facts in alts:
+                    v = resolve_addr(f, val)
+                    if v.root != root or v.steps not in (('h',), ()):
+                        continue
+                    if v.steps == () and v.coff != 0:
+                        continue
+                    for (op, x, y) in facts:
+                        if op == 'eq' and const_int(y) == 0 and x in counts:
+                            ok = True
             if ok:
                 n3.ok(site, 't := &h under count == 0 (read after the swap)', floc(m, f))
             else:
@@ -346,3 +372,36 @@ def run(m, rep, tier):
     from .util import check_assert_effects
     _ae = rep.rule('N11', 'every store / effectful call made with assertions enabled is also made by the NDEBUG build (no work inside assert())', floor=1)
     check_assert_effects(m, _ae, ('slist.c', 'slist.h'))
+
+    # ---- N12: erase_after / pop_front hand back the element that was unlinked ---------------------------
+    n12 = rep.rule('N12', 'erase_after / pop_front return the element of the node the unlink primitive removed (or NULL)', floor=1)
+    from ..facts import phi_leaves as _pl
+    for _nm in ('cstl_slist_erase_after', 'cstl_slist_pop_front'):
+        f = m.pfn(_nm)
+        if f is None:
+            n12.undecided(_nm, 'not in the model')
+            continue
+        mod_ = f.module
+        unl = [c for c in f.all_insts() if c.op == 'call' and c.callee and mod_.fn(c.callee) is not None and not mod_.fn(c.callee).decl
+               and mod_.fn(c.callee).linkage == 'internal' and any(unit_step(mod_.fn(c.callee), s2.o[0])[1] == -1 and resolve_addr(mod_.fn(c.callee), s2.o[1]).fsteps[-1:] == ((SL, 'count'),)
+                                                                   for s2 in mod_.fn(c.callee).all_insts() if s2.op == 'store')]
+        if not unl:
+            n12.ok(_nm, 'NOT DECIDED: no call of a private unlink primitive (the unlink is written in place or delegated)', floc(m, f))
+            continue
+        pv = Prover(f)
+        bad = []
+        for r in f.returns():
+            if not r.o:
+                continue
+            for leaf, lb, lf in _pl(f, pv.fc, r.o[0]):
+                if leaf == 'null' or const_int(leaf) == 0:
+                    continue
+                node = listrules.handed_node(f, leaf) if isinstance(leaf, str) else None
+                src = strip_bitcasts(f, node) if isinstance(node, str) else (strip_bitcasts(f, leaf) if isinstance(leaf, str) else None)
+                if src not in {c.ref for c in unl}:
+                    bad.append('the value returned at %s is not computed from the node the unlink primitive handed back (it is read from the list after '
+                               'the unlink, or is another node): the caller gets the wrong element' % r.loc())
+        if bad:
+            n12.violation(_nm, '; '.join(sorted(set(bad))[:2]), floc(m, f), {})
+        else:
+            n12.ok(_nm, 'every non-NULL result is the element of the unlinked node', floc(m, f))
